@@ -87,6 +87,12 @@ _STRAT = None      # set by generate(): the k-th program of a family; worker kin
                    # every one of the library's Add/AddAll/Bind implementations (one per combination) is visited evenly
 
 
+def late_producer(rng, b, q=0, pr=None):
+    """a producer whose submission comes late (a run of scheduling points first): it lands while the earlier jobs are completing,
+    e.g. between a completion's look at the queue and its wake-up of the event loop"""
+    return [{'op': 'Yield'}] * rng.choice([10, 20, 40]) + [b.add(q, pr)] + ([{'op': 'WUF'}] if rng.random() < 0.5 else [])
+
+
 def inspector(rng):
     """a client that only reads: the introspection calls of the Worker interface, concurrently with whatever the others do"""
     return [{'op': rng.choice(['Introspect', 'Introspect', 'WStatus', 'NumIdle', 'NumProcessing', 'Metrics', 'NumConc'])} for _ in range(rng.choice([2, 3, 5]))]
@@ -127,6 +133,8 @@ def fam_basic(rng, pid):
             if rng.random() < 0.5:
                 ops.append({'op': 'Status', 'job': j})
         b.client('w%d' % (i + 1), ops)
+    if rng.random() < 0.3:
+        b.client('late', late_producer(rng, b, 0, pr))
     return b.prog(cfg)
 
 
@@ -242,6 +250,9 @@ def fam_wq(rng, pid):
         b.client('x', [{'op': 'WUF'}, {'op': 'NumPending'}])
     if rng.random() < 0.3:
         b.client('c2', [b.add(0, pr), {'op': 'WUF'}])
+    if rng.random() < 0.3:
+        b.client('late', late_producer(rng, b, 0, pr))
+    cfg['strategy'] = rng.choice(['rr', 'max', 'min'])      # (one queue: the strategies differ only in how they lock the manager)
     p = b.prog(cfg)
     p['max_step'] = 8000
     return p
@@ -588,6 +599,8 @@ def fam_dist(rng, pid):
             ops.append(op)
         ops.append({'op': 'WUF'})
         b.client('c%d' % (i + 1), ops)
+    if rng.random() < 0.4:
+        b.client('late', late_producer(rng, b, rng.randrange(k), pr))
     return b.prog(cfg)
 
 
